@@ -699,7 +699,9 @@ Theorem C17_check_meaning_scales :
   (* the minor ticks: TicksAtLevel(l < 0) on the folded positive domain [emin, emax] *)
   (forall b e emin emax ro l v, (2 <= b)%Z -> (l < 0)%Z ->
      (In v (log_ticks_pos b e emin emax ro l) <->
-      exists k j, (le_out_lo e <= k <= le_out_hi e)%Z /\ (1 <= j <= b - 1)%Z /\ v = inject_Z j * qpow b k /\ emin <= v /\ v <= emax)).
+      exists k j, (le_out_lo e <= k <= le_out_hi e)%Z /\ (1 <= j <= b - 1)%Z /\ v = inject_Z j * qpow b k /\ emin <= v /\ v <= emax)) /\
+  (* the hypothesis "le_in_lo e <= le_in_hi e + 1" of the Log readings holds on every Log domain *)
+  (forall base mn mx, log_domain base mn mx -> (le_in_lo (log_e base mn mx) <= le_in_hi (log_e base mn mx) + 1)%Z).
 Proof. exact case_meaning_scales. Qed.
 Print Assumptions C17_check_meaning_scales.
 
